@@ -136,7 +136,7 @@ def build():
     UNCH = ["XP == old(XP)"]
     RO = "proved in contracts.legacy_heap / read-only here: a function of the node in this area (the functions below write only the xpath slot)"
     A(Contract(f"{LM}:AwareASTNode.get_child_nodes", params={"self": "Ref"}, returns="Seq[Ref]", props=P, trusted=True, globals=G,
-               trusted_reason="definition of lkids (reflection over dataclass fields; bounded-checked by rt.c20 / rt.c18)", ensures=["result == lkids(self)"] + UNCH))
+               trusted_reason="proved in contracts.legacy_children: the flattening of the child fields in field order (lkids_def), for well-typed children", ensures=["result == lkids(self)"] + UNCH))
     A(Contract(f"{LM}:AwareASTNode.parent_field", params={"self": "Ref"}, returns="Opt[Fld]", props=P, trusted=True, globals=G, trusted_reason=RO,
                ensures=["result == lpf(self)"] + UNCH, note="property"))
     A(Contract(f"{LM}:AwareASTNode.parent_index", params={"self": "Ref"}, returns="Opt[int]", props=P, trusted=True, globals=G, trusted_reason=RO,
